@@ -21,16 +21,18 @@ def main():
     nd = rp.get("ndigits", 3)
 
     def fails(text):
-        for s in range(3):
-            res = new_result()
-            try:
-                drv.check_doc(text, res, random.Random(s), ndigits=nd)
-            except Exception:
-                return False
-            if res["viol"]:
-                return True
-        return False
+        try:
+            r2 = dict(rp)
+            r2["doc"] = text
+            r2.pop("point", None)
+            v = drv.replay(r2)
+            if want_sig:
+                v = [x for x in v if (x.get("sig") or x.get("rule") or "").split(":")[0] == want_sig]
+            return bool(v)
+        except Exception:
+            return False
 
+    want_sig = (json.load(open(path)).get("sig") or "").split(":")[0] if "--same-sig" in sys.argv else None
     assert fails(doc), "witness does not fail"
     root = ET.fromstring(doc)
     changed = True
@@ -65,10 +67,10 @@ def main():
                             el.attrib[k] = ";".join(decls)
     out = ET.tostring(root, encoding="unicode")
     print(out)
-    res = new_result()
-    drv.check_doc(out, res, random.Random(0), ndigits=nd)
-    for v in res["viol"][:1]:
-        print(v["msg"][:3000])
+    r2 = dict(rp)
+    r2["doc"] = out
+    for v in drv.replay(r2)[:1]:
+        print(str(v.get("msg"))[:3000])
 
 
 main()
